@@ -35,10 +35,16 @@ type ModelVar struct {
 type Heap struct {
 	m     map[string]string
 	epoch int
+	rec   *recHeap // non-nil: symbolic heap parameters of a recursive spec function
+}
+
+type recHeap struct {
+	used  map[string]bool
+	order []string
 }
 
 func (h Heap) clone() Heap {
-	n := Heap{m: make(map[string]string, len(h.m)), epoch: h.epoch}
+	n := Heap{m: make(map[string]string, len(h.m)), epoch: h.epoch, rec: h.rec}
 	for k, v := range h.m {
 		n.m[k] = v
 	}
@@ -53,6 +59,7 @@ type VC struct {
 	globals  []string
 	lines    []string
 	comps    map[string]string // component -> sort
+	compTy   map[string]compInfo
 	declared map[string]bool
 	nfresh   int
 	obls     []*Obl
@@ -63,6 +70,7 @@ type VC struct {
 	props    []string
 	pureUsed map[string]bool
 	assumed  map[string]bool // contracts assumed (externs, trusted, callee contracts)
+	recs     map[string]*recInfo
 }
 
 type epochSrc struct {
@@ -72,7 +80,7 @@ type epochSrc struct {
 }
 
 func newVC(p *Prog, name string) *VC {
-	return &VC{P: p, sorts: newSortReg(), lits: newLits(), comps: map[string]string{}, declared: map[string]bool{},
+	return &VC{P: p, sorts: newSortReg(), lits: newLits(), comps: map[string]string{}, compTy: map[string]compInfo{}, declared: map[string]bool{},
 		epochDef: map[int][]epochSrc{}, funcName: name, pureUsed: map[string]bool{}, assumed: map[string]bool{}}
 }
 
@@ -112,10 +120,17 @@ func (vc *VC) global(name, decl string) {
 
 // ---- heap components ----
 
+type compInfo struct {
+	kind string // field, elems, cell, mapval
+	ty   types.Type
+	dom  string // for mapval: the domain component
+}
+
 func (vc *VC) compField(st types.Type, i int) string {
 	s := st.Underlying().(*types.Struct)
 	name := "H:" + vc.sorts.structName(st) + "." + fieldName(s, i)
 	if _, ok := vc.comps[name]; !ok {
+		vc.compTy[name] = compInfo{kind: "field", ty: s.Field(i).Type()}
 		vc.comps[name] = fmt.Sprintf("(Array Int %s)", vc.sorts.sortOf(s.Field(i).Type()))
 	}
 	return name
@@ -124,6 +139,7 @@ func (vc *VC) compField(st types.Type, i int) string {
 func (vc *VC) compElems(elem types.Type) string {
 	name := "E:" + shortTypeKey(elem)
 	if _, ok := vc.comps[name]; !ok {
+		vc.compTy[name] = compInfo{kind: "elems", ty: elem}
 		vc.comps[name] = fmt.Sprintf("(Array Int (Array Int %s))", vc.sorts.sortOf(elem))
 	}
 	return name
@@ -132,6 +148,7 @@ func (vc *VC) compElems(elem types.Type) string {
 func (vc *VC) compCell(t types.Type) string {
 	name := "C:" + shortTypeKey(t)
 	if _, ok := vc.comps[name]; !ok {
+		vc.compTy[name] = compInfo{kind: "cell", ty: t}
 		vc.comps[name] = fmt.Sprintf("(Array Int %s)", vc.sorts.sortOf(t))
 	}
 	return name
@@ -148,6 +165,7 @@ func (vc *VC) compMapDom(m *types.Map) string {
 func (vc *VC) compMapVal(m *types.Map) string {
 	name := "MV:" + shortTypeKey(m.Key()) + ":" + shortTypeKey(m.Elem())
 	if _, ok := vc.comps[name]; !ok {
+		vc.compTy[name] = compInfo{kind: "mapval", ty: m.Elem(), dom: vc.compMapDom(m)}
 		vc.comps[name] = fmt.Sprintf("(Array Int (Array %s %s))", vc.sorts.sortOf(m.Key()), vc.sorts.sortOf(m.Elem()))
 	}
 	return name
@@ -183,6 +201,13 @@ func (vc *VC) compSort(c string) string {
 
 // get returns the current version term of component c in heap h.
 func (vc *VC) get(h Heap, c string) string {
+	if h.rec != nil {
+		if !h.rec.used[c] {
+			h.rec.used[c] = true
+			h.rec.order = append(h.rec.order, c)
+		}
+		return q("hp:" + c)
+	}
 	if v, ok := h.m[c]; ok {
 		return v
 	}
@@ -203,6 +228,8 @@ func (vc *VC) epochVersion(c string, e int) string {
 		vc.globals = append(vc.globals, decl)
 		if c == compTop {
 			vc.globals = append(vc.globals, fmt.Sprintf("(assert (>= %s 1))", name))
+		} else if ax := vc.closedAxiom(c, name, vc.epochVersion(compTop, e), func(d string) string { return vc.epochVersion(d, e) }); ax != "" {
+			vc.globals = append(vc.globals, ax)
 		}
 		return name
 	}
@@ -355,4 +382,91 @@ func (vc *VC) queryFor(o *Obl) string {
 		sb.WriteString("(get-value (" + strings.Join(ts, " ") + "))\n")
 	}
 	return sb.String()
+}
+
+
+// ---- closed heap: no object reachable from an allocated object is unallocated (Go memory safety) ----
+
+// refLeaves lists the reference-valued leaves of a value term of Go type t.
+func (vc *VC) refLeaves(term string, t types.Type, depth int) []string {
+	t = types.Unalias(t)
+	switch u := t.Underlying().(type) {
+	case *types.Pointer, *types.Map:
+		return []string{term}
+	case *types.Slice:
+		return []string{"(s-base " + term + ")"}
+	case *types.Interface:
+		return []string{"(i-ref " + term + ")"}
+	case *types.Struct:
+		if depth <= 0 {
+			return nil
+		}
+		var out []string
+		for i := 0; i < u.NumFields(); i++ {
+			out = append(out, vc.refLeaves(vc.sorts.structGet(t, i, term), u.Field(i).Type(), depth-1)...)
+		}
+		return out
+	}
+	return nil
+}
+
+func (vc *VC) closedAxiom(c, version, top string, domOf func(string) string) string {
+	ci, ok := vc.compTy[c]
+	if !ok {
+		return ""
+	}
+	var val, bind, guard, pat string
+	switch ci.kind {
+	case "field", "cell":
+		val = sel(version, "r")
+		bind = "((r Int))"
+		guard = "(and (< 0 r) (< r " + top + "))"
+		pat = val
+	case "elems":
+		val = sel(sel(version, "r"), "j")
+		bind = "((r Int) (j Int))"
+		guard = "(and (< 0 r) (< r " + top + "))"
+		pat = val
+	case "mapval":
+		ks := vc.comps[c]
+		// (Array Int (Array K V)) -> K
+		ks = strings.TrimPrefix(ks, "(Array Int (Array ")
+		depth, end := 0, 0
+		for i := 0; i < len(ks); i++ {
+			if ks[i] == '(' {
+				depth++
+			} else if ks[i] == ')' {
+				depth--
+			} else if ks[i] == ' ' && depth == 0 {
+				end = i
+				break
+			}
+		}
+		ks = ks[:end]
+		val = sel(sel(version, "r"), "k")
+		bind = "((r Int) (k " + ks + "))"
+		guard = "(and (< 0 r) (< r " + top + ") " + sel(sel(domOf(ci.dom), "r"), "k") + ")"
+		pat = val
+	default:
+		return ""
+	}
+	leaves := vc.refLeaves(val, ci.ty, 2)
+	if len(leaves) == 0 {
+		return ""
+	}
+	var cs []string
+	for _, l := range leaves {
+		cs = append(cs, "(<= 0 "+l+")", "(< "+l+" "+top+")")
+	}
+	return fmt.Sprintf("(assert (forall %s (! (=> %s %s) :pattern (%s))))", bind, guard, and(cs...), pat)
+}
+
+// assumeClosed emits the closed-heap axiom for the current version of c in h (used after havocs).
+func (vc *VC) assumeClosed(h Heap, c string) {
+	if c == compTop {
+		return
+	}
+	if ax := vc.closedAxiom(c, vc.get(h, c), vc.get(h, compTop), func(d string) string { return vc.get(h, d) }); ax != "" {
+		vc.emit(ax)
+	}
 }
